@@ -23,6 +23,7 @@ INVARIANTS
   TypeOK
   LocksConsistent
   StoredIsAssociated
+  StoredImpliesAssociated
   LogsContiguous
   PrunedOnlyBelowPruneOp
   CursorIsMaxOfAcked
